@@ -259,13 +259,18 @@ class Contract:
                 return ("raise", E.__name__)
             s.result = res
             interp.check_memoised_results()
-            for EC, cond in self.raises.items():
-                ctx.prove(f"raises:{EC.__name__}:whenever{sfx}", z3.Not(lift(cond(s))), kind="raises")
+            posts_first = getattr(self, "posts_first", False)  # opt-in (set on the Contract object): postconditions are proved WITHOUT the
+            if not posts_first:                                # "no exception was due" facts, so a skipped validation fails the invariant clause by name
+                for EC, cond in self.raises.items():
+                    ctx.prove(f"raises:{EC.__name__}:whenever{sfx}", z3.Not(lift(cond(s))), kind="raises")
             ens = self.labelled(self.ensures(s))
             for lab, t in ens:
                 if mutate_goal:
                     t = mutate_goal(lab, t)
                 ctx.prove(f"post:{lab}", t, kind="post", assume_after=False)
+            if posts_first:
+                for EC, cond in self.raises.items():
+                    ctx.prove(f"raises:{EC.__name__}:whenever{sfx}", z3.Not(lift(cond(s))), kind="raises")
             return ("return", None)
 
         results = explore(run, max_paths=self.max_paths, stop_after=path_limit)  # path_limit: canary sampling (runner), None = all paths
@@ -276,6 +281,8 @@ class Contract:
             outcomes.append(out)
             for ob in ctx.obligs:
                 obligs.setdefault(ob.key(), ob)
+            if ctx.ghost.get("rowmajor"):
+                self.used_rowmajor = True  # values.RowMajor axioms were assumed on some path (-> lemmas/discrete.lean D1 in the thorough tier)
             for b in ctx.ghost.get("memo_bad", ()):
                 if b not in memo_bad:
                     memo_bad.append(b)
